@@ -26,15 +26,16 @@ def mid2(eid):
     return [2000.0 + eid, float(2 * eid + 1)]       # a second interior vertex: no edge polyline reads the same in both directions
 
 
-def build_net(edges, ids='int'):
+def build_net(edges, ids='int', nanz=()):
     from tracklib.core import ENUCoords, Obs, Track, Network, Node, Edge
     net = Network()
+    Z = lambda v: float('nan') if v in nanz else 0          # junctions whose altitude is unknown (a 2-D survey): positions play no part in the default routing
     for (eid, s, t, o, w) in edges:
         pts = [pos(s), mid(eid), mid2(eid), pos(t)]
         e = Edge(edge_label(eid, ids), Track([Obs(ENUCoords(x, y, 0)) for x, y in pts]))
         e.orientation = o
         e.weight = w
-        net.addEdge(e, Node(s, ENUCoords(pos(s)[0], pos(s)[1], 0)), Node(t, ENUCoords(pos(t)[0], pos(t)[1], 0)))
+        net.addEdge(e, Node(s, ENUCoords(pos(s)[0], pos(s)[1], Z(s))), Node(t, ENUCoords(pos(t)[0], pos(t)[1], Z(t))))
     return net
 
 
@@ -69,11 +70,13 @@ def generate(rng, n, tier):
             s, t = rng.choice([(tw, tw + 20), (tw + 20, tw), (s, tw + 20) if s != tw + 20 else (tw, tw + 20)])
         cases.append({'edges': g, 'src': s, 'tgt': t, 'shared': rng.random() < 0.3, 'edit': rng.random() < 0.3, 'warm': rng.choice(nodes), 'pre': rand_pre(rng), 'ids': rng.choice(['int', 'int', 'str', 'blank']),
                       'desig': rng.choice(['id', 'id', 'id', 'getnode', 'fresh', 'other']), 'astar': rng.random() < 0.25})
+        if rng.random() < 0.2:
+            cases[-1]['nanz'] = rng.sample(nodes, rng.randint(1, min(3, len(nodes)))); cases[-1]['astar'] = False
     return cases
 
 
 def run_impl(case):
-    net = build_net(case['edges'], case.get('ids', 'int'))
+    net = build_net(case['edges'], case.get('ids', 'int'), case.get('nanz') or ())
     use_subnet(net, case)
     if case.get('edit'):            # a route returned earlier is the caller's: editing it in place must not move the network under later queries
         for a, b in ((case['warm'], case['tgt']), (case['src'], case['tgt']), (case['tgt'], case['src'])):
